@@ -360,6 +360,22 @@ class Ctx:
         p = subprocess.run([binpath, "record", out] + [str(a) for a in args], timeout=timeout,
                            stdout=subprocess.PIPE, stderr=subprocess.PIPE, text=True)
         if p.returncode != 0:
+            # A panic raised inside gimli's own source, or a fatal signal, while the harness
+            # drives in-scope inputs is data about the code under test (the call did not
+            # produce the specified result), not a failure of the machinery.
+            err = p.stderr or ""
+            m = re.search(r"panicked at ([^\s:]+):(\d+)", err)
+            loc = None
+            if m and os.path.isabs(m.group(1)) and "/src/" in m.group(1) and "/harness/" not in m.group(1) \
+                    and "/.cargo/" not in m.group(1) and "/rustc/" not in m.group(1):
+                loc = "src/" + m.group(1).rsplit("/src/", 1)[1] + ":" + m.group(2)
+            elif p.returncode < 0:
+                loc = "signal%d" % -p.returncode
+            if loc:
+                self.violation("record:%s:crash:%s" % (os.path.basename(binpath), loc),
+                               "recording run of %s %s did not finish: %s" % (os.path.basename(binpath), " ".join(str(a) for a in args), err[-600:]),
+                               {"bin": os.path.basename(binpath), "args": [str(a) for a in args]}, {"stderr": err[-600:]})
+                raise ToolError("record crashed inside the code under test at %s" % loc)
             raise ToolError("record failed: rc=%s %s" % (p.returncode, p.stderr[-2000:]))
         return out
 
